@@ -717,6 +717,8 @@ def val(e):
     if k == "un":
         return ("un", e[1], val(e[2]))
     if k == "cast":
+        if len(e) == 3:  # already value-normalised
+            return ("cast", val(e[1]), e[2])
         return ("cast", val(e[2]), e[4])
     if k == "const":
         return ("const", e[1], e[2])
@@ -835,8 +837,13 @@ def guards_at(fn, b):
     # normalise Not
     norm = []
     for c, tr in out:
-        while isinstance(c, tuple) and c and c[0] == "un" and c[1] == "Not":
-            c, tr = c[2], (not tr)
+        while isinstance(c, tuple) and c and isinstance(tr, bool):
+            if c[0] == "un" and c[1] == "Not":
+                c, tr = c[2], (not tr)
+            elif c[0] == "call" and len(c[2]) == 1 and (norm_path(c[1]).endswith("ops::bit::Not>::not") or c[1] == "anyhow::__private::not"):
+                c, tr = c[2][0], (not tr)  # `!cond` on a bool through the Not trait (macro expansions)
+            else:
+                break
         norm.append((c, tr))
     return norm
 
